@@ -421,7 +421,16 @@ def opPerturb (j : Json) : R Verdict := do
     let m1 := (validateFile HashOrder.id d1 t1).toOption
     let m2 := (validateFile HashOrder.rev d2 t2).toOption
     v := v.addCorr "C13" (m1 == some r1 && m2 == some r2)
-    v := v.addSpec "C13" (Spec.C13.holdsPair d1 d2 t1 t2 r1 r2)
+    -- the parse stage of a file depends on its own text alone: the same text in the two projects
+    -- (whatever the other files hold, in whatever order they were added) has the same syntax-stage result
+    let textOf (key : String) : Option String :=
+      ((j.getObjVal? key).toOption.bind fun f =>
+        (list (fun x => do pure ((← str (← fld x "id")), (← str (← fld x "text")))) f).toOption).bind
+        fun l => (l.find? (fun e => e.1 == target)).map (·.2)
+    let textSame := match textOf "files", textOf "files_b" with
+      | some a, some b => a == b
+      | _, _ => false
+    v := v.addSpec "C13" (Spec.C13.holdsPair d1 d2 t1 t2 r1 r2 && (!textSame || t1 == t2))
     let same := t1 == t2 && Spec.C13.facts d1 t1 == Spec.C13.facts d2 t2
     v := { v with nontrivial := !(Spec.C13.importKeys t1).isEmpty,
                   dist := bump (bump v.dist how) (if same then "facts unchanged" else "facts changed (control)") }
